@@ -347,8 +347,12 @@ def _gen_through(node, rng, budget):
     if isinstance(node, spec.UnionT):
         if any(c.kind == "None" for c in node.children) and (budget <= 0 or rng.random() < 0.3):
             return None
-        c = rng.choice([c for c in node.children if c.kind != "None"] or node.children)
-        return _gen_through(c, rng, budget - 1)
+        for _ in range(6):
+            c = rng.choice([c for c in node.children if c.kind != "None"] or node.children)
+            x = _gen_through(c, rng, budget - 1)
+            if node.dump_case(x) is c:     # the runtime class must identify the union case (documented dispatch by .mro())
+                return x
+        raise LookupError("no value whose runtime class identifies its union case")
     if isinstance(node, spec.WrapT):
         return _gen_through(node.child, rng, budget)
     return node.gen(rng)
